@@ -40,3 +40,7 @@ def witness_for(contract, ob, items):
         if len(s) > 10:
             return rtc.Failure("format_bytes", args, "ensures", "C18-at-most-10-characters", f"[replayed from solver model] format_bytes({args['n']}) = {s!r}: {len(s)} characters")
     return None
+
+
+# thorough tier: deliberate edits that must turn an obligation red (applied to a scratch copy, never to /repo)
+MUTATIONS = [('contracts.utils18', 'format_bytes', 'dask/utils.py', '        if n >= k * 0.9:', '        if n >= k * 1.9:')]
